@@ -11,13 +11,17 @@ EXPLANATION = (
     "Decided: (1) the result is unchanged by rotating or conjugating relators and by free reduction: abelian_invariants consumes each relator "
     "only through relator_as_vector(nr_gens, w) (the matrix is map(relator_as_vector) over the relators, nothing else reads them), and in "
     "relator_as_vector a letter g is used only in the sign test g < 0 and as the index |g| - 1 of an order-independent `+= one()` / `-= one()` "
-    "(the -= on the g < 0 edge with index -g - 1, the += on the other with index g - 1); the body calls nothing that could observe positions "
-    "or lengths. The result therefore factors through the exponent-sum vector. (2) the list is ascending: on the non-trivial path the returned "
+    "(the -= on the g < 0 edge with index -g - 1, the += on the other with index g - 1); the body calls nothing that could observe positions or "
+    "lengths. The result therefore factors through the exponent-sum vector. (2) the list is ascending: on the non-trivial path the returned "
     "vector is the receiver of sort() and is not touched afterwards; the two early returns are constant-filled (empty / nr_gens zeros, under "
     "nr_gens == 0 resp. no relators). (3) factors equal to 1 are dropped and one 0 is appended per free generator: the collected chain is "
-    "filter(x != 1) over the diagonal factors chained with repeat(0).take(nr_gens - n), n = min(rows, nr_gens). NOT decided: the "
-    "invariant-factor values (Smith normal form over machine integers), invariance under reordering/inverting relators, renaming generators, "
-    "adding products.")
+    "filter(x != 1) over the diagonal factors chained with repeat(0).take(nr_gens - n), n = min(rows, nr_gens). Also decided (rounds 3-5): gcdx "
+    "satisfies the extended-Euclid contract for every input (loop invariant checked by induction on sampled states), the divisor-chain fix-up "
+    "runs for every pair i < j whenever factors[i] does not divide factors[j] (guard evaluated on an integer grid) and stores (gcd, lcm), the "
+    "pivot search and the row/column passes cover the whole trailing block, no pass works with a stale pivot, the elimination loop ends on the "
+    "count of the last pass applied. NOT decided: that these steps together yield the Smith normal form for every matrix (termination and the "
+    "global argument), overflow of machine integers, invariance under reordering/inverting relators, renaming generators, adding products as "
+    "such.")
 TRUSTED = ["rustc MIR lowering", "std sort sorts ascending"]
 ASSUMPTIONS = ["letters lie in 1..=nr_gens in absolute value (otherwise indexing panics: out of scope here)"]
 
